@@ -253,3 +253,73 @@ if __name__ == "__main__":
         bad += any(v in ("MISSED", "wrong-instance") for v in r["results"].values())
     print("mutants: %d, not caught: %d" % (len(rs), bad))
     sys.exit(1 if bad else 0)
+
+
+# --------------------------------------------------------------------------------------------
+# benign refactors: behaviour-preserving edits on which EVERY check must stay silent
+# --------------------------------------------------------------------------------------------
+BENIGN = [
+    ("B01-rename-locals-hoist-bound", "src/dynamic.rs",
+     "                let mut carry = 0;\n                for i in 0..usize::min(Self::capacity_from_bit_len(self.length), Self::capacity_from_bit_len(rhs.length)) {\n                    let (d1, c1) = self.data[i].$overflowing_method(carry);\n                    let (d2, c2) = d1.$overflowing_method(rhs.data[i]);\n                    self.data[i] = d2;\n                    carry = (c1 | c2) as u64;\n                }",
+     "                let mut carry = 0;\n                let common = usize::min(Self::capacity_from_bit_len(self.length), Self::capacity_from_bit_len(rhs.length));\n                for i in 0..common {\n                    let (partial, c1) = self.data[i].$overflowing_method(carry);\n                    let (sum, c2) = partial.$overflowing_method(rhs.data[i]);\n                    self.data[i] = sum;\n                    carry = (c1 | c2) as u64;\n                }"),
+    ("B02-assert-message", "src/fixed.rs",
+     "    fn zeros(length: usize) -> Self {\n        assert!(length <= Self::capacity());",
+     "    fn zeros(length: usize) -> Self {\n        assert!(length <= Self::capacity(), \"length exceeds the fixed capacity\");"),
+    ("B03-bvf-not-with-iterator", "src/fixed.rs",
+     "        for i in 0..N {\n            self.data[i] = !self.data[i];\n        }\n        self.mod2n(self.length);",
+     "        for d in self.data.iter_mut() {\n            *d = !*d;\n        }\n        self.mod2n(self.length);"),
+    ("B04-bvd-not-with-restricted-iterator", "src/dynamic.rs",
+     "        for i in 0..Self::capacity_from_bit_len(self.length) {\n            self.data[i] = !self.data[i];\n        }\n        if let Some(l) = self.data.get_mut(self.length / Self::BIT_UNIT) {",
+     "        let used = Self::capacity_from_bit_len(self.length);\n        for d in self.data[..used].iter_mut() {\n            *d = !*d;\n        }\n        if let Some(l) = self.data.get_mut(self.length / Self::BIT_UNIT) {"),
+    ("B05-hoist-hash-word-count", "src/auto.rs",
+     "        for i in 0..(self.significant_bits() + 63) / 64 {\n            self.get_int::<u64>(i).unwrap().hash(state);\n        }",
+     "        let words = (self.significant_bits() + 63) / 64;\n        for i in 0..words {\n            let w = self.get_int::<u64>(i).unwrap();\n            w.hash(state);\n        }"),
+    ("B06-push-assert-message", "src/fixed.rs",
+     "        assert!(self.length < Self::capacity());\n        self.length += 1;",
+     "        assert!(self.length < Self::capacity(), \"push on a full fixed vector\");\n        self.length += 1;"),
+    ("B07-guarded-index-mask", "src/dynamic.rs",
+     "                    self.data[i] = d;\n                    carry = c as u64;\n                }\n                if let Some(l) = self.data.get_mut(self.length / Bvd::BIT_UNIT) {\n                    *l &= u64::mask(self.length % Bvd::BIT_UNIT);\n                }\n            }\n        }\n\n        impl $trait<Bvd> for Bvd {",
+     "                    self.data[i] = d;\n                    carry = c as u64;\n                }\n                if self.length / Bvd::BIT_UNIT < self.data.len() {\n                    self.data[self.length / Bvd::BIT_UNIT] &= u64::mask(self.length % Bvd::BIT_UNIT);\n                }\n            }\n        }\n\n        impl $trait<Bvd> for Bvd {"),
+    ("B08-early-return-style-in-first", "src/lib.rs",
+     "    fn first(&self) -> Option<Bit> {\n        if self.len() > 0 {\n            Some(self.get(0))\n        } else {\n            None\n        }\n    }",
+     "    fn first(&self) -> Option<Bit> {\n        if self.len() > 0 {\n            return Some(self.get(0));\n        }\n        None\n    }"),
+    ("B09-comment-and-blank-lines", "src/iter.rs",
+     "    fn nth(&mut self, n: usize) -> Option<Self::Item> {\n",
+     "    // Skips `n` bits and yields the next one.\n\n    fn nth(&mut self, n: usize) -> Option<Self::Item> {\n\n"),
+    ("B10-div-rem-shift-local", "src/dynamic.rs",
+     "        let shift = self.significant_bits() - divisor.significant_bits();\n        let mut divisor: Bvd = divisor.try_into().expect(\"should never fail\");",
+     "        let dividend_bits = self.significant_bits();\n        let shift = dividend_bits - divisor.significant_bits();\n        let mut divisor: Bvd = divisor.try_into().expect(\"should never fail\");"),
+]
+
+ALL_PIDS = ["C01", "C02", "C03", "C04", "C05", "C07", "C08", "C09", "C10", "C11", "C12", "C13", "C15", "C17", "C18", "C19", "C20"]
+
+
+def run_benign_one(repo, mutant):
+    mid, path, old, new = mutant
+    res = dict(id=mid, alarms=[])
+    text = open(os.path.join(repo, path)).read()
+    if text.count(old) < 1:
+        res["status"] = "skipped: anchor not found"
+        return res
+    tmp = tempfile.mkdtemp(prefix="bva-benign-")
+    try:
+        _copy_tree(repo, tmp)
+        with open(os.path.join(tmp, path), "w") as fh:
+            fh.write(text.replace(old, new, 1))
+        res["status"] = "ran"
+        for pid in ALL_PIDS:
+            rc, out = _run_check(pid, tmp, os.path.join(tmp, ".cache"))
+            if "BUILD-FAILED" in out:
+                res["status"] = "skipped: does not compile"
+                break
+            if rc != 0:
+                lines = [l.strip() for l in out.splitlines() if l.startswith("  rule=")]
+                res["alarms"].append((pid, lines[:3]))
+    finally:
+        shutil.rmtree(tmp, ignore_errors=True)
+    return res
+
+
+def run_benign(repo="/repo", workers=5):
+    with ThreadPoolExecutor(max_workers=workers) as ex:
+        return list(ex.map(lambda m: run_benign_one(repo, m), BENIGN))
